@@ -293,6 +293,9 @@ func Main(args []string) int {
 	}
 	// F3: value lengths on both sides of every length-encoding boundary, per field class and chain
 	lengths := []int{1, 15, 16, 31, 32, 255, 256, 65534, 65535, 65536, 65537, 70000}
+	if thorough {
+		lengths = append(lengths, 14, 17, 30, 33, 254, 257, 65520, 65521, 65522, 65523, 65524, 65525, 65526, 65527, 65528, 65529, 65530, 65531, 65532, 65533, 65538, 65539, 65540, 65541, 65542, 65543, 65544, 131071, 131072)
+	}
 	mkval := func(prefix, suffix string, total int) string { // prefix + a... + suffix of exactly `total` bytes
 		n := total - len(prefix) - len(suffix)
 		if n < 0 {
